@@ -306,6 +306,161 @@ is satisfiable. -/
 example : smoothJoin (1 : Rat) [-1/4, -1/4] = true ∧
     ([-1/4, -1/4] : List Rat).any (fun d => decide (0 < d)) = false := by decide +kernel
 
+/-! ### `SmoothJoinV2` -/
+
+/-- **V2 reduces to V1**: on any operand list, `SmoothJoinV2` answers like `SmoothJoin` of the same
+distances with the effective radius `radius·sqrt(1 − c²)` for some `c` (the |cosine| of the two normals it
+picked) — the distance bookkeeping is literally the same loop. -/
+theorem smoothV2_reduces (n : Nat) (sqrt abs : K → K) (radius : K) (es : List (K × Pt K)) :
+    ∃ c : K, smoothJoinV2 n sqrt abs radius es
+      = smoothJoin (radius * sqrt (1 - c * c)) (es.map (·.1)) := by
+  have hany : (es.map fun e => ((some e.1, e.2) : DN K)).any (fun e => posE (Prod.fst e))
+      = ((es.map (·.1)).map some).any (fun e => posE (id e)) := by
+    simp [List.any_map, Function.comp_def]
+  unfold smoothJoinV2 smoothJoin
+  simp only [smoothLoop_eq]
+  rw [hany]
+  cases h : ((es.map (·.1)).map some).any (fun e => posE (id e))
+  · simp only [Bool.false_eq_true, if_false]
+    have hk := stepFold_key (α := K) (E := DN K) Prod.fst 0 ((none, fun _ => 0), (none, fun _ => 0))
+      (es.map fun e => (some e.1, e.2))
+    simp only [Prod.map, List.map_map, Function.comp_def] at hk
+    have hk' : stepFold (E := Option K) id 0 (none, none) ((es.map (·.1)).map some)
+        = ((stepFold (E := DN K) Prod.fst 0 ((none, fun _ => 0), (none, fun _ => 0))
+            (es.map fun e => (some e.1, e.2))).1.1,
+           (stepFold (E := DN K) Prod.fst 0 ((none, fun _ => 0), (none, fun _ => 0))
+            (es.map fun e => (some e.1, e.2))).2.1) := by
+      rw [hk]; simp [List.map_map, Function.comp_def]
+    refine ⟨abs (dotN n (stepFold (E := DN K) Prod.fst 0 ((none, fun _ => 0), (none, fun _ => 0))
+            (es.map fun e => (some e.1, e.2))).1.2
+          (stepFold (E := DN K) Prod.fst 0 ((none, fun _ => 0), (none, fun _ => 0))
+            (es.map fun e => (some e.1, e.2))).2.2), ?_⟩
+    rw [hk']
+  · exact ⟨0, by simp⟩
+
+/-- `SmoothJoinV2` with a **single operand** is the operand itself. -/
+theorem smoothV2_single (n : Nat) (sqrt abs : K → K) (radius : K) (e : K × Pt K) :
+    smoothJoinV2 n sqrt abs radius [e] = decide (0 < e.1) := by
+  obtain ⟨c, hc⟩ := smoothV2_reduces n sqrt abs radius [e]
+  rw [hc]; exact smooth_single _ _
+
+/-- `SmoothJoinV2` with **radius 0** is the plain union. -/
+theorem smoothV2_zero_radius (n : Nat) (sqrt abs : K → K) (es : List (K × Pt K)) :
+    smoothJoinV2 n sqrt abs 0 es = es.any (fun e => decide (0 < e.1)) := by
+  obtain ⟨c, hc⟩ := smoothV2_reduces n sqrt abs 0 es
+  rw [hc, zero_mul, smooth_zero_radius, List.any_map]; rfl
+
+/-- `SmoothJoinV2` equals the plain union wherever fewer than two operands are within the smoothing
+radius (`sqrt` only needs `0 ≤ sqrt x` and `sqrt x ≤ 1` for `x ≤ 1`, so the effective radius is at most
+`radius`). -/
+theorem smoothV2_far (n : Nat) (sqrt abs : K → K) (radius : K) (es : List (K × Pt K))
+    (hr : 0 ≤ radius) (hs0 : ∀ x, 0 ≤ sqrt x) (hs1 : ∀ x, x ≤ 1 → sqrt x ≤ 1)
+    (h : (es.map (·.1)).countP (fun d => decide (-radius < d)) < 2) :
+    smoothJoinV2 n sqrt abs radius es = es.any (fun e => decide (0 < e.1)) := by
+  obtain ⟨c, hc⟩ := smoothV2_reduces n sqrt abs radius es
+  have hle : radius * sqrt (1 - c * c) ≤ radius := by
+    have h1 : sqrt (1 - c * c) ≤ 1 := hs1 _ (by nlinarith [mul_self_nonneg c])
+    nlinarith [hs0 (1 - c * c)]
+  rw [hc, smooth_far _ _ ?_, List.any_map]; rfl
+  refine lt_of_le_of_lt (List.countP_mono_left ?_) h
+  intro d _ hd
+  simp only [decide_eq_true_eq] at hd ⊢
+  linarith
+
+/-- `SmoothJoinV2` only adds points within the smoothing radius of at least two operands. -/
+theorem smoothV2_adds_only_near_two (n : Nat) (sqrt abs : K → K) (radius : K) (es : List (K × Pt K))
+    (hr : 0 ≤ radius) (hs0 : ∀ x, 0 ≤ sqrt x) (hs1 : ∀ x, x ≤ 1 → sqrt x ≤ 1)
+    (hin : smoothJoinV2 n sqrt abs radius es = true)
+    (hout : es.any (fun e => decide (0 < e.1)) = false) :
+    2 ≤ (es.map (·.1)).countP (fun d => decide (-radius < d)) := by
+  by_contra h
+  have := smoothV2_far n sqrt abs radius es hr hs0 hs1 (by omega)
+  rw [hin, hout] at this
+  exact Bool.noConfusion this
+
+private theorem slot_eq {l : List (K × Pt K)} {x y : DN K}
+    (hx : x = (none, fun _ => 0) ∨ x ∈ l.map (fun e => ((some e.1, e.2) : DN K)))
+    (hy : y = (none, fun _ => 0) ∨ y ∈ l.map (fun e => ((some e.1, e.2) : DN K)))
+    (hk : x.1 = y.1) (hinj : ∀ a ∈ l, ∀ b ∈ l, a.1 = b.1 → a = b) : x = y := by
+  rcases hx with rfl | hx <;> rcases hy with rfl | hy
+  · rfl
+  · obtain ⟨b, _, rfl⟩ := List.mem_map.mp hy; simp at hk
+  · obtain ⟨a, _, rfl⟩ := List.mem_map.mp hx; simp at hk
+  · obtain ⟨a, ha, rfl⟩ := List.mem_map.mp hx
+    obtain ⟨b, hb, rfl⟩ := List.mem_map.mp hy
+    simp only [Option.some.injEq] at hk
+    rw [hinj a ha b hb hk]
+
+/-- `SmoothJoinV2` gives the same answer for every ordering of its operands, provided operands that
+report the same distance at the point also report the same normal (with tied distances and different
+normals "the two closest operands" is not well defined; the distances used never depend on the order,
+see `smoothV2_reduces` + `smooth_perm`). -/
+theorem smoothV2_perm (n : Nat) (sqrt abs : K → K) (radius : K) {es₁ es₂ : List (K × Pt K)}
+    (h : es₁.Perm es₂) (hinj : ∀ a ∈ es₁, ∀ b ∈ es₁, a.1 = b.1 → a = b) :
+    smoothJoinV2 n sqrt abs radius es₁ = smoothJoinV2 n sqrt abs radius es₂ := by
+  have hloop : smoothLoop (E := DN K) Prod.fst 0 ((none, fun _ => 0), (none, fun _ => 0))
+        (es₁.map fun e => (some e.1, e.2))
+      = smoothLoop (E := DN K) Prod.fst 0 ((none, fun _ => 0), (none, fun _ => 0))
+        (es₂.map fun e => (some e.1, e.2)) := by
+    simp only [smoothLoop_eq]
+    rw [(h.map _).any_eq]
+    split_ifs
+    · rfl
+    · congr 1
+      -- the distances in the slots agree (they are the top two of the same multiset)
+      have key : ∀ es : List (K × Pt K),
+          Prod.map Prod.fst Prod.fst (stepFold (E := DN K) Prod.fst 0 ((none, fun _ => 0), (none, fun _ => 0))
+            (es.map fun e => (some e.1, e.2)))
+          = top2Spec (es.map (·.1)) := by
+        intro es
+        rw [stepFold_key]
+        simp only [Prod.map, List.map_map, Function.comp_def]
+        have := stepFold_id_eq (es.map (·.1))
+        simp only [List.map_map, Function.comp_def] at this
+        rw [this]
+        have := foldl_ins1_eq_top2Spec (es.map (·.1))
+        simp only [List.map_map, Function.comp_def] at this
+        exact this
+      have hk : Prod.map Prod.fst Prod.fst (stepFold (E := DN K) Prod.fst 0 ((none, fun _ => 0), (none, fun _ => 0))
+            (es₁.map fun e => (some e.1, e.2)))
+          = Prod.map Prod.fst Prod.fst (stepFold (E := DN K) Prod.fst 0 ((none, fun _ => 0), (none, fun _ => 0))
+            (es₂.map fun e => (some e.1, e.2))) := by
+        rw [key, key, top2Spec_perm (h.map _)]
+      have m1 := stepFold_mem (α := K) (E := DN K) Prod.fst 0 ((none, fun _ => 0), (none, fun _ => 0))
+        (es₁.map fun e => (some e.1, e.2))
+      have m2 := stepFold_mem (α := K) (E := DN K) Prod.fst 0 ((none, fun _ => 0), (none, fun _ => 0))
+        (es₂.map fun e => (some e.1, e.2))
+      have sub : ∀ y, y ∈ es₂.map (fun e => ((some e.1, e.2) : DN K)) →
+          y ∈ es₁.map (fun e => ((some e.1, e.2) : DN K)) := fun y hy => (h.map _).symm.subset hy
+      simp only [Prod.map, Prod.mk.injEq] at hk
+      refine Prod.ext ?_ ?_
+      · refine slot_eq (l := es₁) ?_ ?_ hk.1 hinj
+        · rcases m1.1 with h1 | h1 | h1
+          · left; exact h1
+          · left; exact h1
+          · right; exact h1
+        · rcases m2.1 with h1 | h1 | h1
+          · left; exact h1
+          · left; exact h1
+          · right; exact sub _ h1
+      · refine slot_eq (l := es₁) ?_ ?_ hk.2 hinj
+        · rcases m1.2 with h1 | h1 | h1
+          · left; exact h1
+          · left; exact h1
+          · right; exact h1
+        · rcases m2.2 with h1 | h1 | h1
+          · left; exact h1
+          · left; exact h1
+          · right; exact sub _ h1
+  unfold smoothJoinV2
+  simp only [hloop]
+
+/-- Non-vacuity of the `sqrt` hypotheses: the exact square root used by the driver on {0, 1}
+(`fun x => if x = 1 then 1 else 0`) satisfies them. -/
+example : (∀ x : Rat, 0 ≤ (fun x => if x = 1 then (1 : Rat) else 0) x) ∧
+    (∀ x : Rat, x ≤ 1 → (fun x => if x = 1 then (1 : Rat) else 0) x ≤ 1) := by
+  constructor <;> intro x <;> (try intro _) <;> simp only <;> split_ifs <;> norm_num
+
 /-- The closure **before the repair** (`legacySmoothJoin`, kept in the model file) violated both
 clauses: order dependence with three operands (defect F2) … -/
 theorem legacy_order_dependent :
